@@ -109,6 +109,12 @@ class Engine(object):
 
   def _check(self, *extra):
     t = time.perf_counter(); r = self.s.check(*extra); self.stats['solver_s'] += time.perf_counter() - t
+    if r == z3.unknown:
+      # a time-out under load: one retry with a much larger budget before giving up (inconclusive)
+      self.s.set('timeout', QUERY_TIMEOUT_MS * 9)
+      t = time.perf_counter(); r = self.s.check(*extra); self.stats['solver_s'] += time.perf_counter() - t
+      self.s.set('timeout', QUERY_TIMEOUT_MS)
+      self.stats['retried'] = self.stats.get('retried', 0) + 1
     if r == z3.sat: self.stats['q_sat'] += 1
     elif r == z3.unsat: self.stats['q_unsat'] += 1
     else:
